@@ -706,8 +706,12 @@ func (s *Netceptor) RemoveLocalServiceAdvertisement(service string) error {
 	s.serviceAdsLock.Lock()
 	defer s.serviceAdsLock.Unlock()
 	n, ok := s.serviceAdsReceived[s.nodeID]
-	connType := n[service].ConnType
+	var connType byte
 	if ok {
+		// the advertisement may be gone already (the socket was closed before)
+		if ad, present := n[service]; present && ad != nil {
+			connType = ad.ConnType
+		}
 		delete(n, service)
 	}
 	sa := &serviceAdvertisementFull{
